@@ -1345,6 +1345,22 @@ def static_position_programs():
                                                  [["expr", ["postinc", "a"]], tag(" a", var("a"))]]]]],
         "top": d(),
     }
+    # a call that does NOT execute the static statement has a plain local of that name: writing it must not touch the
+    # static cell (q(true, 1); q(false, 9); q(true, ..) still sees 1), reading it sees null/unset, not the static
+    c, v = var("c"), var("v")
+    for wr in ([["expr", ["assign", "s", v]]], [["expr", ["assign", "s", ["bin", "Add", v, lit(1)]]]], [["expr", ["assign", "s", v]], ["expr", ["postinc", "s"]]],
+               [["for", [["assign", "s", lit(0)]], ["bin", "Lt", st, v], [["postinc", "s"]], []]]):
+        for guard in ("if", "switch", "loop"):
+            decl_use = [["static", "s", 0], tag(" s", st)]
+            if guard == "if":
+                g = [["if", ["bin", "Eq", c, lit(1)], decl_use, [], []]]
+            elif guard == "switch":
+                g = [["switch", c, [["case", lit(1), decl_use + [["break", 1]]], ["default", [echo_(" -")]]]]]
+            else:
+                g = [["for", [["assign", "i", lit(0)]], ["bin", "Lt", var("i"), c], [["postinc", "i"]], decl_use]]
+            q = {"name": "q", "params": [["c", None], ["v", None]], "body": g + wr + [["return", st]]}
+            calls = [(1, 1), (0, 9), (1, 2), (0, 8), (0, 7), (1, 3)]
+            out.append({"funcs": [q], "main": [tag(" r", ["call", "q", [lit(a), lit(b)]]) for a, b in calls]})
     for name, body in positions.items():
         f = {"name": "c", "params": [["n", None]],
              "body": [tag(" [", n)] + body + [["if", ["bin", "Gt", n, lit(0)], [["expr", ["assign", "r", ["call", "c", [["bin", "Sub", n, lit(1)]]]]], tag(" r", var("r"))], [], []],
@@ -2248,6 +2264,12 @@ NAMED_ENGINE_PROBES = [
 
 # generators are outside the Coq core; a yield inside each loop kind must suspend and resume THAT loop (engine only,
 # expected output = PHP's).  /repo c2b40ec: a yield inside a foreach produced only the first element.
+# switch compares like ==, whatever == says for the pair (engine only; mixed kinds are outside the typed core): one program
+# per pair of values, prints "." when `switch ($a) { case $b: }` and `$a == $b` agree, the pair otherwise
+SWITCH_EQ_VALUES = ['1', '"1"', '"01"', 'true', 'false', '5', '0', 'null', '"a"', '""', '"0"', '1.0', '"1.0"', '[]', '[1]', '-1']
+SWITCH_EQ_PROBE = ('$vs = [%s]; foreach ($vs as $i => $a) { foreach ($vs as $j => $b) { $m = false; switch ($a) { case $b: $m = true; break; default: $m = false; } '
+                   'echo ($m === ($a == $b)) ? "." : "[$i,$j]"; } }' % ", ".join(SWITCH_EQ_VALUES))
+
 GEN_DECL = ('function kv($a) { foreach ($a as $k => $v) { yield $k => $v; } } function vs($a) { foreach ($a as $v) { yield $v; } } '
             'function show($g) { foreach ($g as $k => $v) { echo "$k=$v;"; } } ')
 GENERATOR_ENGINE_PROBES = [
@@ -2275,6 +2297,7 @@ GENERATOR_ENGINE_PROBES = [
      "0=1;.1=3;.2=4;.3=7;"),
     ("foreach-in-while", 'function ww($a) { $i = 0; while ($i < 2) { foreach ($a as $k => $v) { yield "$i$k"; } $i++; } } ' + GEN_DECL + 'show(ww(["x" => 1, "y" => 2]));',
      "0=0x;1=0y;2=1x;3=1y;"),
+    ("switch-eq", SWITCH_EQ_PROBE, "." * (len(SWITCH_EQ_VALUES) ** 2)),
     ("two-generators", GEN_DECL + '$x = kv([1, 2]); $y = kv(["a" => 8, "b" => 9]); foreach ($x as $k => $v) { echo "$k=$v;"; foreach ($y as $k2 => $v2) { echo "$k2=$v2;"; } }',
      "0=1;a=8;b=9;1=2;"),
 ]
